@@ -105,6 +105,38 @@ theorem lru_evicts_least_recent (ops : List Op) (n : Nat) :
 example : (Lru.evict (Lru.run [.admit 1 1, .admit 2 1, .admit 3 1, .access 1 1]) 2).2.1 = [2, 3] := by
   decide
 
+/-- Only `admit x` can make `x` tracked: no other call starts tracking a key. -/
+theorem lru_tracks_only_on_admit {s : Lru.State} (h : Lru.Inv s) (op : Op) {x : Nat}
+    (hx : x ∈ keys (Lru.tracked (Lru.step s op))) :
+    x ∈ keys (Lru.tracked s) ∨ ∃ c, op = .admit x c := by
+  refine tracks_only_on_admit_of ?_ ?_ ?_ ?_ ?_ hx
+  · rintro k c rfl; exact ⟨_, (lru_untrack_only_by_nomination h k c).2.1⟩
+  · rintro k c rfl; exact (lru_untrack_only_by_nomination h k c).1
+  · rintro k rfl; exact (lru_untrack_only_by_nomination h k 0).2.2.1
+  · rintro n p rfl; exact ⟨_, _, Or.inl (lru_evict_sound h n).1⟩
+  · rintro rfl; rfl
+
+/-- A key is never nominated twice without a re-admission in between: if `evict` nominated `k`
+after history `ops1` and nominates it again after the further calls `ops2`, then `ops2` contains
+an `admit k`. -/
+theorem lru_no_renomination (ops1 ops2 : List Op) (n n' k : Nat)
+    (h1 : k ∈ (Lru.evict (Lru.run ops1) n).2.1)
+    (h2 : k ∈ (Lru.evict (Lru.run (ops1 ++ .evict n [] :: ops2)) n').2.1) :
+    ∃ c, Op.admit k c ∈ ops2 := by
+  have h := lru_inv_reachable ops1
+  have hs := lru_evict_sound h n
+  have hrun : Lru.run (ops1 ++ .evict n [] :: ops2)
+      = ops2.foldl (Lru.step ) (Lru.evict (Lru.run ops1) n).1 := by
+    simp [Lru.run, List.foldl_append, Lru.step]
+  have ht := ((lru_evict_sound (lru_inv_reachable (ops1 ++ .evict n [] :: ops2)) n')).1.tracked k h2
+  rw [hrun] at ht
+  exact retracked_only_by_admit (Lru.step ) Lru.tracked Lru.Inv
+    (fun _ op h => lru_inv_step h op) (fun _ op _ h hx => lru_tracks_only_on_admit h op hx)
+    ops2 hs.2 (hs.1.gone k h1) ht
+
+example : 1 ∈ (Lru.evict (Lru.run [.admit 1 1]) 1).2.1 ∧
+    1 ∈ (Lru.evict (Lru.run ([.admit 1 1] ++ .evict 1 [] :: [.admit 1 1])) 1).2.1 := by decide
+
 /-! ## FIFO -/
 
 theorem fifo_inv_reachable (ops : List Op) : Fifo.Inv (Fifo.run ops) :=
@@ -187,6 +219,38 @@ theorem fifo_evicts_in_insertion_order (ops : List Op) (n : Nat) :
 example : (Fifo.evict (Fifo.run [.admit 1 1, .admit 2 1, .admit 3 1, .access 1 1, .admit 1 1]) 2).2.1
     = [1, 2] := by decide
 
+/-- Only `admit x` can make `x` tracked: no other call starts tracking a key. -/
+theorem fifo_tracks_only_on_admit {s : Fifo.State} (h : Fifo.Inv s) (op : Op) {x : Nat}
+    (hx : x ∈ keys (Fifo.tracked (Fifo.step s op))) :
+    x ∈ keys (Fifo.tracked s) ∨ ∃ c, op = .admit x c := by
+  refine tracks_only_on_admit_of ?_ ?_ ?_ ?_ ?_ hx
+  · rintro k c rfl; exact ⟨_, (fifo_untrack_only_by_nomination s k c).2.1⟩
+  · rintro k c rfl; exact (fifo_untrack_only_by_nomination s k c).1
+  · rintro k rfl; exact (fifo_untrack_only_by_nomination s k 0).2.2.1
+  · rintro n p rfl; exact ⟨_, _, Or.inl (fifo_evict_sound h n).1⟩
+  · rintro rfl; rfl
+
+/-- A key is never nominated twice without a re-admission in between: if `evict` nominated `k`
+after history `ops1` and nominates it again after the further calls `ops2`, then `ops2` contains
+an `admit k`. -/
+theorem fifo_no_renomination (ops1 ops2 : List Op) (n n' k : Nat)
+    (h1 : k ∈ (Fifo.evict (Fifo.run ops1) n).2.1)
+    (h2 : k ∈ (Fifo.evict (Fifo.run (ops1 ++ .evict n [] :: ops2)) n').2.1) :
+    ∃ c, Op.admit k c ∈ ops2 := by
+  have h := fifo_inv_reachable ops1
+  have hs := fifo_evict_sound h n
+  have hrun : Fifo.run (ops1 ++ .evict n [] :: ops2)
+      = ops2.foldl (Fifo.step ) (Fifo.evict (Fifo.run ops1) n).1 := by
+    simp [Fifo.run, List.foldl_append, Fifo.step]
+  have ht := ((fifo_evict_sound (fifo_inv_reachable (ops1 ++ .evict n [] :: ops2)) n')).1.tracked k h2
+  rw [hrun] at ht
+  exact retracked_only_by_admit (Fifo.step ) Fifo.tracked Fifo.Inv
+    (fun _ op h => fifo_inv_step h op) (fun _ op _ h hx => fifo_tracks_only_on_admit h op hx)
+    ops2 hs.2 (hs.1.gone k h1) ht
+
+example : 1 ∈ (Fifo.evict (Fifo.run [.admit 1 1]) 1).2.1 ∧
+    1 ∈ (Fifo.evict (Fifo.run ([.admit 1 1] ++ .evict 1 [] :: [.admit 1 1])) 1).2.1 := by decide
+
 /-! ## Random (the victim picks are an oracle: statements hold for EVERY admissible pick list) -/
 
 theorem random_inv_step {s : Random.State} (h : Random.Inv s) (op : Op) : Random.Inv (Random.step s op) := by
@@ -241,6 +305,44 @@ theorem random_untrack_only_by_nomination (s : Random.State) (k c : Nat) :
 
 theorem random_readmit_updates_cost (s : Random.State) (k c : Nat) :
     costOf (Random.tracked (Random.admit s k c).1) k = some c := costOf_push _ k c
+
+/-- Only `admit x` can make `x` tracked. -/
+theorem random_tracks_only_on_admit {s : Random.State} (h : Random.Inv s) (op : Op) {x : Nat}
+    (hx : x ∈ keys (Random.tracked (Random.step s op))) :
+    x ∈ keys (Random.tracked s) ∨ ∃ c, op = .admit x c := by
+  refine tracks_only_on_admit_of ?_ ?_ ?_ ?_ ?_ hx
+  · rintro k c rfl; exact ⟨_, (random_untrack_only_by_nomination s k c).2.1⟩
+  · rintro k c rfl; exact (random_untrack_only_by_nomination s k c).1
+  · rintro k rfl; exact (random_untrack_only_by_nomination s k 0).2.2.1
+  · rintro n p rfl
+    simp only [Random.step]
+    split
+    · next s' f he => exact ⟨p, f, Or.inl (random_evict_sound h n p he).1⟩
+    · exact ⟨[], 0, Or.inr rfl⟩
+  · rintro rfl; rfl
+
+/-- A key is never nominated twice without a re-admission in between (for every pair of
+admissible random pick lists). -/
+theorem random_no_renomination (ops1 ops2 : List Op) (n n' k : Nat) (picks picks' : List Nat)
+    {s1 s2 : Random.State} {f1 f2 : Nat}
+    (he1 : Random.evictWith (Random.run ops1) n picks 0 = some (s1, f1)) (h1 : k ∈ picks)
+    (he2 : Random.evictWith (Random.run (ops1 ++ .evict n picks :: ops2)) n' picks' 0 = some (s2, f2))
+    (h2 : k ∈ picks') : ∃ c, Op.admit k c ∈ ops2 := by
+  have h := random_inv_reachable ops1
+  have hs := random_evict_sound h n picks he1
+  have hrun : Random.run (ops1 ++ .evict n picks :: ops2) = ops2.foldl Random.step s1 := by
+    simp [Random.run, List.foldl_append, Random.step]
+    have : Random.evictWith (List.foldl Random.step Random.init ops1) n picks 0 = some (s1, f1) := he1
+    rw [this]
+  have ht := (random_evict_sound (random_inv_reachable (ops1 ++ .evict n picks :: ops2)) n' picks' he2).1.tracked k h2
+  rw [hrun] at ht
+  exact retracked_only_by_admit Random.step Random.tracked Random.Inv
+    (fun _ op h => random_inv_step h op) (fun _ op _ h hx => random_tracks_only_on_admit h op hx)
+    ops2 hs.2 (hs.1.gone k h1) ht
+
+example : Random.evictWith (Random.run [.admit 1 1]) 1 [1] 0 = some ({}, 1) ∧
+    Random.evictWith (Random.run ([.admit 1 1] ++ .evict 1 [1] :: [.admit 1 1])) 1 [1] 0 = some ({}, 1) := by
+  decide
 
 /-! ## SLRU (`protCap` = protected-segment capacity, a construction-time constant) -/
 
@@ -316,6 +418,38 @@ theorem slru_readmit_updates_cost_partial {s : Slru.State} (h : Slru.Inv s) (k c
   refine ⟨fun hk => ?_, fun hk => by simp [hk]⟩
   simp only [hk, if_false]; rw [(Slru.push_new_spec h hk c).2]; exact costOf_push _ k c
 
+/-- Only `admit x` can make `x` tracked: no other call starts tracking a key. -/
+theorem slru_tracks_only_on_admit (protCap : Nat) {s : Slru.State} (h : Slru.Inv s) (op : Op) {x : Nat}
+    (hx : x ∈ keys (Slru.tracked (Slru.step protCap s op))) :
+    x ∈ keys (Slru.tracked s) ∨ ∃ c, op = .admit x c := by
+  refine tracks_only_on_admit_of ?_ ?_ ?_ ?_ ?_ hx
+  · rintro k c rfl; exact ⟨_, (slru_untrack_only_by_nomination h k c protCap).2.1⟩
+  · rintro k c rfl; exact (slru_untrack_only_by_nomination h k c protCap).1
+  · rintro k rfl; exact (slru_untrack_only_by_nomination h k 0 protCap).2.2.1
+  · rintro n p rfl; exact ⟨_, _, Or.inl (slru_evict_sound h n protCap).1⟩
+  · rintro rfl; rfl
+
+/-- A key is never nominated twice without a re-admission in between: if `evict` nominated `k`
+after history `ops1` and nominates it again after the further calls `ops2`, then `ops2` contains
+an `admit k`. -/
+theorem slru_no_renomination (protCap : Nat) (ops1 ops2 : List Op) (n n' k : Nat)
+    (h1 : k ∈ (Slru.evict (Slru.run protCap ops1) n protCap).2.1)
+    (h2 : k ∈ (Slru.evict (Slru.run protCap (ops1 ++ .evict n [] :: ops2)) n' protCap).2.1) :
+    ∃ c, Op.admit k c ∈ ops2 := by
+  have h := slru_inv_reachable protCap ops1
+  have hs := slru_evict_sound h n protCap
+  have hrun : Slru.run protCap (ops1 ++ .evict n [] :: ops2)
+      = ops2.foldl (Slru.step protCap) (Slru.evict (Slru.run protCap ops1) n protCap).1 := by
+    simp [Slru.run, List.foldl_append, Slru.step, Slru.evict]
+  have ht := ((slru_evict_sound (slru_inv_reachable protCap (ops1 ++ .evict n [] :: ops2)) n' protCap)).1.tracked k h2
+  rw [hrun] at ht
+  exact retracked_only_by_admit (Slru.step protCap) Slru.tracked Slru.Inv
+    (fun _ op h => slru_inv_step protCap h op) (fun _ op _ h hx => slru_tracks_only_on_admit protCap h op hx)
+    ops2 hs.2 (hs.1.gone k h1) ht
+
+example : 1 ∈ (Slru.evict (Slru.run 2 [.admit 1 1]) 1 2).2.1 ∧
+    1 ∈ (Slru.evict (Slru.run 2 ([.admit 1 1] ++ .evict 1 [] :: [.admit 1 1])) 1 2).2.1 := by decide
+
 /-! ## SIEVE -/
 
 theorem sieve_inv_step {s : Sieve.State} (h : Sieve.Inv s) (op : Op) : Sieve.Inv (Sieve.step s op) := by
@@ -365,6 +499,38 @@ theorem sieve_untrack_only_by_nomination (s : Sieve.State) (k c : Nat) :
 theorem sieve_readmit_updates_cost (s : Sieve.State) (k c : Nat) :
     costOf (Sieve.tracked (Sieve.admit s k c).1) k = some c := by
   rw [Sieve.tracked_admit]; exact costOf_push _ k c
+
+/-- Only `admit x` can make `x` tracked: no other call starts tracking a key. -/
+theorem sieve_tracks_only_on_admit {s : Sieve.State} (h : Sieve.Inv s) (op : Op) {x : Nat}
+    (hx : x ∈ keys (Sieve.tracked (Sieve.step s op))) :
+    x ∈ keys (Sieve.tracked s) ∨ ∃ c, op = .admit x c := by
+  refine tracks_only_on_admit_of ?_ ?_ ?_ ?_ ?_ hx
+  · rintro k c rfl; exact ⟨_, (sieve_untrack_only_by_nomination s k c).2.1⟩
+  · rintro k c rfl; exact (sieve_untrack_only_by_nomination s k c).1
+  · rintro k rfl; exact (sieve_untrack_only_by_nomination s k 0).2.2.1
+  · rintro n p rfl; exact ⟨_, _, Or.inl (sieve_evict_sound h n).1⟩
+  · rintro rfl; rfl
+
+/-- A key is never nominated twice without a re-admission in between: if `evict` nominated `k`
+after history `ops1` and nominates it again after the further calls `ops2`, then `ops2` contains
+an `admit k`. -/
+theorem sieve_no_renomination (ops1 ops2 : List Op) (n n' k : Nat)
+    (h1 : k ∈ (Sieve.evict (Sieve.run ops1) n).2.1)
+    (h2 : k ∈ (Sieve.evict (Sieve.run (ops1 ++ .evict n [] :: ops2)) n').2.1) :
+    ∃ c, Op.admit k c ∈ ops2 := by
+  have h := sieve_inv_reachable ops1
+  have hs := sieve_evict_sound h n
+  have hrun : Sieve.run (ops1 ++ .evict n [] :: ops2)
+      = ops2.foldl (Sieve.step ) (Sieve.evict (Sieve.run ops1) n).1 := by
+    simp [Sieve.run, List.foldl_append, Sieve.step]
+  have ht := ((sieve_evict_sound (sieve_inv_reachable (ops1 ++ .evict n [] :: ops2)) n')).1.tracked k h2
+  rw [hrun] at ht
+  exact retracked_only_by_admit (Sieve.step ) Sieve.tracked Sieve.Inv
+    (fun _ op h => sieve_inv_step h op) (fun _ op _ h hx => sieve_tracks_only_on_admit h op hx)
+    ops2 hs.2 (hs.1.gone k h1) ht
+
+example : 1 ∈ (Sieve.evict (Sieve.run [.admit 1 1]) 1).2.1 ∧
+    1 ∈ (Sieve.evict (Sieve.run ([.admit 1 1] ++ .evict 1 [] :: [.admit 1 1])) 1).2.1 := by decide
 
 /-! ## Clock -/
 
@@ -439,6 +605,38 @@ theorem clock_readmit_updates_cost_partial (s : Clock.State) (k c : Nat) :
   have : Clock.tracked { s with order := s.order ++ [{ key := k, cost := c, ref := false }] }
       = Clock.tracked s ++ [(k, c)] := by simp [Clock.tracked, Clock.pair]
   rw [this, costOf_append, costOf_eq_none_iff.2 hk]; simp [costOf_cons]
+
+/-- Only `admit x` can make `x` tracked: no other call starts tracking a key. -/
+theorem clock_tracks_only_on_admit {s : Clock.State} (h : Clock.Inv s) (op : Op) {x : Nat}
+    (hx : x ∈ keys (Clock.tracked (Clock.step s op))) :
+    x ∈ keys (Clock.tracked s) ∨ ∃ c, op = .admit x c := by
+  refine tracks_only_on_admit_of ?_ ?_ ?_ ?_ ?_ hx
+  · rintro k c rfl; exact ⟨_, (clock_untrack_only_by_nomination h k c).2.1⟩
+  · rintro k c rfl; exact (clock_untrack_only_by_nomination h k c).1
+  · rintro k rfl; exact (clock_untrack_only_by_nomination h k 0).2.2.1
+  · rintro n p rfl; exact ⟨_, _, Or.inl (clock_evict_sound h n).1⟩
+  · rintro rfl; rfl
+
+/-- A key is never nominated twice without a re-admission in between: if `evict` nominated `k`
+after history `ops1` and nominates it again after the further calls `ops2`, then `ops2` contains
+an `admit k`. -/
+theorem clock_no_renomination (ops1 ops2 : List Op) (n n' k : Nat)
+    (h1 : k ∈ (Clock.evict (Clock.run ops1) n).2.1)
+    (h2 : k ∈ (Clock.evict (Clock.run (ops1 ++ .evict n [] :: ops2)) n').2.1) :
+    ∃ c, Op.admit k c ∈ ops2 := by
+  have h := clock_inv_reachable ops1
+  have hs := clock_evict_sound h n
+  have hrun : Clock.run (ops1 ++ .evict n [] :: ops2)
+      = ops2.foldl (Clock.step ) (Clock.evict (Clock.run ops1) n).1 := by
+    simp [Clock.run, List.foldl_append, Clock.step]
+  have ht := ((clock_evict_sound (clock_inv_reachable (ops1 ++ .evict n [] :: ops2)) n')).1.tracked k h2
+  rw [hrun] at ht
+  exact retracked_only_by_admit (Clock.step ) Clock.tracked Clock.Inv
+    (fun _ op h => clock_inv_step h op) (fun _ op _ h hx => clock_tracks_only_on_admit h op hx)
+    ops2 hs.2 (hs.1.gone k h1) ht
+
+example : 1 ∈ (Clock.evict (Clock.run [.admit 1 1]) 1).2.1 ∧
+    1 ∈ (Clock.evict (Clock.run ([.admit 1 1] ++ .evict 1 [] :: [.admit 1 1])) 1).2.1 := by decide
 
 /-! ## ARC (`cap` = capacity, a construction-time constant; tracked = T1 ++ T2, the ghost lists
 B1/B2 remember keys that are NOT resident and are not tracked) -/
@@ -520,6 +718,38 @@ theorem arc_readmit_updates_cost {s : Arc.State} (h : Arc.Inv s) (k c cap : Nat)
   obtain ⟨hi, hm, _⟩ := Arc.admit_spec h k c cap
   exact (costOf_eq_some_iff (Arc.nodup_tracked hi)).2 hm
 
+/-- Only `admit x` can make `x` tracked: no other call starts tracking a key. -/
+theorem arc_tracks_only_on_admit (cap : Nat) {s : Arc.State} (h : Arc.Inv s) (op : Op) {x : Nat}
+    (hx : x ∈ keys (Arc.tracked (Arc.step cap s op))) :
+    x ∈ keys (Arc.tracked s) ∨ ∃ c, op = .admit x c := by
+  refine tracks_only_on_admit_of ?_ ?_ ?_ ?_ ?_ hx
+  · rintro k c rfl; exact (let ⟨d, _, hd⟩ := (arc_untrack_only_by_nomination_partial h k c cap).2.2.1; ⟨d, hd⟩)
+  · rintro k c rfl; exact (arc_untrack_only_by_nomination_partial h k c cap).1
+  · rintro k rfl; exact (arc_untrack_only_by_nomination_partial h k 0 cap).2.2.2.1
+  · rintro n p rfl; exact ⟨_, _, Or.inl (arc_evict_sound h n cap).1⟩
+  · rintro rfl; rfl
+
+/-- A key is never nominated twice without a re-admission in between: if `evict` nominated `k`
+after history `ops1` and nominates it again after the further calls `ops2`, then `ops2` contains
+an `admit k`. -/
+theorem arc_no_renomination (cap : Nat) (ops1 ops2 : List Op) (n n' k : Nat)
+    (h1 : k ∈ (Arc.evict (Arc.run cap ops1) n cap).2.1)
+    (h2 : k ∈ (Arc.evict (Arc.run cap (ops1 ++ .evict n [] :: ops2)) n' cap).2.1) :
+    ∃ c, Op.admit k c ∈ ops2 := by
+  have h := arc_inv_reachable cap ops1
+  have hs := arc_evict_sound h n cap
+  have hrun : Arc.run cap (ops1 ++ .evict n [] :: ops2)
+      = ops2.foldl (Arc.step cap) (Arc.evict (Arc.run cap ops1) n cap).1 := by
+    simp [Arc.run, List.foldl_append, Arc.step]
+  have ht := ((arc_evict_sound (arc_inv_reachable cap (ops1 ++ .evict n [] :: ops2)) n' cap)).1.tracked k h2
+  rw [hrun] at ht
+  exact retracked_only_by_admit (Arc.step cap) Arc.tracked Arc.Inv
+    (fun _ op h => arc_inv_step cap h op) (fun _ op _ h hx => arc_tracks_only_on_admit cap h op hx)
+    ops2 hs.2 (hs.1.gone k h1) ht
+
+example : 1 ∈ (Arc.evict (Arc.run 2 [.admit 1 1]) 1 2).2.1 ∧
+    1 ∈ (Arc.evict (Arc.run 2 ([.admit 1 1] ++ .evict 1 [] :: [.admit 1 1])) 1 2).2.1 := by decide
+
 /-! ## W-TinyLFU (tracked = admission window ++ main SLRU; the theorems hold for EVERY state of
 the frequency sketch, so they do not depend on how the sketch is modelled) -/
 
@@ -597,5 +827,38 @@ theorem tinylfu_readmit_updates_cost {s : TinyLfu.State} (h : TinyLfu.Inv s)
     costOf (TinyLfu.tracked (TinyLfu.admit s cfg k c).1) k = some c := by
   obtain ⟨hi, _, hm⟩ := TinyLfu.admit_spec h cfg k c
   exact (costOf_eq_some_iff (TinyLfu.nodup_tracked hi)).2 (hm hk)
+
+/-- Only `admit x` can make `x` tracked: no other call starts tracking a key. -/
+theorem tinylfu_tracks_only_on_admit (cfg : TinyLfu.Cfg) {s : TinyLfu.State} (h : TinyLfu.Inv s) (op : Op) {x : Nat}
+    (hx : x ∈ keys (TinyLfu.tracked (TinyLfu.step cfg s op))) :
+    x ∈ keys (TinyLfu.tracked s) ∨ ∃ c, op = .admit x c := by
+  refine tracks_only_on_admit_of ?_ ?_ ?_ ?_ ?_ hx
+  · rintro k c rfl; exact ⟨_, (tinylfu_untrack_only_by_nomination h cfg k c).2.1⟩
+  · rintro k c rfl; exact (tinylfu_untrack_only_by_nomination h cfg k c).1
+  · rintro k rfl; exact (tinylfu_untrack_only_by_nomination h cfg k 0).2.2.1
+  · rintro n p rfl; exact ⟨_, _, Or.inl (tinylfu_evict_sound h cfg n).1⟩
+  · rintro rfl; rfl
+
+/-- A key is never nominated twice without a re-admission in between: if `evict` nominated `k`
+after history `ops1` and nominates it again after the further calls `ops2`, then `ops2` contains
+an `admit k`. -/
+theorem tinylfu_no_renomination (cfg : TinyLfu.Cfg) (ops1 ops2 : List Op) (n n' k : Nat)
+    (h1 : k ∈ (TinyLfu.evict (TinyLfu.run cfg ops1) cfg n).2.1)
+    (h2 : k ∈ (TinyLfu.evict (TinyLfu.run cfg (ops1 ++ .evict n [] :: ops2)) cfg n').2.1) :
+    ∃ c, Op.admit k c ∈ ops2 := by
+  have h := tinylfu_inv_reachable cfg ops1
+  have hs := tinylfu_evict_sound h cfg n
+  have hrun : TinyLfu.run cfg (ops1 ++ .evict n [] :: ops2)
+      = ops2.foldl (TinyLfu.step cfg) (TinyLfu.evict (TinyLfu.run cfg ops1) cfg n).1 := by
+    simp [TinyLfu.run, List.foldl_append, TinyLfu.step]
+  have ht := ((tinylfu_evict_sound (tinylfu_inv_reachable cfg (ops1 ++ .evict n [] :: ops2)) cfg n')).1.tracked k h2
+  rw [hrun] at ht
+  exact retracked_only_by_admit (TinyLfu.step cfg) TinyLfu.tracked TinyLfu.Inv
+    (fun _ op h => tinylfu_inv_step cfg h op) (fun _ op _ h hx => tinylfu_tracks_only_on_admit cfg h op hx)
+    ops2 hs.2 (hs.1.gone k h1) ht
+
+example : 1 ∈ (TinyLfu.evict (TinyLfu.run (TinyLfu.mkCfg 10) [.admit 1 1, .admit 2 1]) (TinyLfu.mkCfg 10) 1).2.1 ∧
+    1 ∈ (TinyLfu.evict (TinyLfu.run (TinyLfu.mkCfg 10)
+      ([.admit 1 1, .admit 2 1] ++ .evict 1 [] :: [.admit 1 1, .admit 3 1])) (TinyLfu.mkCfg 10) 2).2.1 := by decide
 
 end Fv.Props.C14
